@@ -25,6 +25,7 @@ pfx! {
 	c14q_pfx_u32: u32, 0, 8, 7; c14q_pfx_u128: u128, 0, 20, 19; c14q_pfx_bool: bool, 0, 4, 4; c14q_pfx_compact_u64: Compact<u64>, 0, 20, 19;
 	c14q_pfx_opt_u16: Option<u16>, 0, 8, 6; c14q_pfx_res: Result<u8, u32>, 0, 8, 7; c14q_pfx_tup: (u8, Compact<u32>, bool), 0, 20, 19;
 	c14q_pfx_arr_opt: [Option<u8>; 3], 0, 8, 9; c14q_pfx_arr_u32: [u32; 2], 0, 12, 11; c14q_pfx_box: Box<u32>, 0, 8, 7;
+	c14q_pfx_compact_u8: Compact<u8>, 0, 20, 19; c14q_pfx_compact_u16: Compact<u16>, 0, 20, 19; c14q_pfx_compact_u32: Compact<u32>, 0, 20, 19; c14q_pfx_tup_c16: (Compact<u16>, bool), 0, 20, 19;
 	c14q_pfx_vec_u8_3: Vec<u8>, 3, 8, 7; c14q_pfx_vec_u16_2: Vec<u16>, 2, 8, 8; 
 	c14q_pfx_deque_u16_2: VecDeque<u16>, 2, 8, 8; c14q_pfx_duration: core::time::Duration, 0, 16, 15;
 	c14t_pfx_vec_u32_2: Vec<u32>, 2, 12, 12;
@@ -95,6 +96,31 @@ pub mod zst_with_encoding {
 	}
 }
 
+/// sequences, lists, sets and maps whose ITEMS have an empty encoding: the value is just its count byte -- it must decode exactly
+/// (no byte per item may be demanded), alone, at the end of a concatenation, and through decode_all. Concrete count 3 per query.
+macro_rules! empty_items { ($($name:ident: $t:ty, $n:expr;)*) => {$(
+	#[kani::proof]
+	#[kani::unwind(8)]
+	pub fn $name() {
+		let r = <$t>::decode(&mut Pre::count(3, &[][..]));
+		assert!(r.is_ok(), "a container of empty-encoding items does not decode from its exact encoding");
+		if let Ok(v) = &r { assert!(v.len() == $n); }
+		let x: u8 = kani::any();
+		let xs = [x];
+		let mut tail = Pre::count(3, &xs[..]);
+		let r2 = <$t>::decode(&mut tail);
+		assert!(r2.is_ok() && tail.rest.len() == 1, "a container of empty-encoding items consumed bytes that are not its own");
+		let enc = [3u8 << 2];
+		assert!(<$t>::decode_all(&mut &enc[..]).is_ok(), "decode_all rejects the exact encoding of a container of empty-encoding items");
+		core::mem::forget((r, r2));
+	}
+)*}; }
+empty_items! {
+	c14q_empty_items_vec: Vec<()>, 3; c14q_empty_items_deque: alloc::collections::VecDeque<core::marker::PhantomData<u32>>, 3; c14q_empty_items_list: alloc::collections::LinkedList<()>, 3;
+	c14q_empty_items_list_arr0: alloc::collections::LinkedList<[u8; 0]>, 3; c14q_empty_items_heap: alloc::collections::BinaryHeap<()>, 3;
+	c14q_empty_items_set: alloc::collections::BTreeSet<()>, 1; c14q_empty_items_map: alloc::collections::BTreeMap<(), ()>, 1;
+}
+
 /// negative twin: "a prefix of length n-0 fails" (i.e. the full encoding) must FAIL
 #[kani::proof]
 #[kani::unwind(6)]
@@ -113,10 +139,10 @@ pub fn c14n_twin_full_encoding_fails() {
 pub mod ioreader {
 	use crate::gen::iord::h_ioreader;
 	use parity_scale_codec::Compact;
-	#[kani::proof] #[kani::unwind(8)] pub fn c14t_ioreader_tuple() { h_ioreader::<(Compact<u32>, Option<u16>), 5>() }
-	#[kani::proof] #[kani::unwind(8)] pub fn c14q_ioreader_opt_u16() { h_ioreader::<Option<u16>, 4>() }
-	#[kani::proof] #[kani::unwind(8)] pub fn c14q_ioreader_arr_u16() { h_ioreader::<[u16; 2], 5>() }
-	#[kani::proof] #[kani::unwind(8)] pub fn c14q_ioreader_arr_u8() { h_ioreader::<[u8; 4], 5>() }
-	#[kani::proof] #[kani::unwind(8)] pub fn c14t_ioreader_u64() { h_ioreader::<u64, 8>() }
-	#[kani::proof] #[kani::unwind(8)] pub fn c14t_ioreader_arr_opt() { h_ioreader::<[Option<bool>; 2], 4>() }
+	#[kani::proof] #[kani::unwind(14)] pub fn c14t_ioreader_tuple() { h_ioreader::<(Compact<u32>, Option<u16>), 5>() }
+	#[kani::proof] #[kani::unwind(14)] pub fn c14q_ioreader_opt_u16() { h_ioreader::<Option<u16>, 4>() }
+	#[kani::proof] #[kani::unwind(14)] pub fn c14q_ioreader_arr_u16() { h_ioreader::<[u16; 2], 5>() }
+	#[kani::proof] #[kani::unwind(14)] pub fn c14q_ioreader_arr_u8() { h_ioreader::<[u8; 4], 5>() }
+	#[kani::proof] #[kani::unwind(14)] pub fn c14t_ioreader_u64() { h_ioreader::<u64, 8>() }
+	#[kani::proof] #[kani::unwind(14)] pub fn c14t_ioreader_arr_opt() { h_ioreader::<[Option<bool>; 2], 4>() }
 }
